@@ -31,6 +31,7 @@ def make(counts: Counts):
     class RunRepo:
         def __init__(self, s): pass
         def store_recent_run(self, engine_data, archive=None, archive_filename=None): counts.recent_runs.append(engine_data.run_data.run_id)
+        def get_by_run_id(self, run_id): return object() if run_id in counts.recent_runs else None
 
     class EngRepo:
         def __init__(self, s): pass
@@ -77,8 +78,29 @@ def scenario_duplicate_run_started():
             "scenario": "run_started(R1) x2, run_stopped(R1) x2"}
 
 
+def scenario_run_started_resent_after_the_run_stopped():
+    """run_started(R1), run_stopped(R1), then a late resent run_started(R1): still one plot log and one recent run for R1"""
+    import openpectus.protocol.engine_messages as EM
+    c = Counts()
+    agg, Mdl, fe, emap = make(c)
+
+    def body():
+        ed = Mdl.EngineData("E", "pc", "v", "uod", "a", "e", "f", "loc")
+        emap["E"] = ed
+        m = EM.RunStartedMsg(engine_id="E", run_id="R1", started_tick=1.0)
+        stop = EM.RunStoppedMsg(engine_id="E", run_id="R1", runlog=Mdl.RunLog.empty(), method_state=Mdl.MethodState.empty(), archive=None, archive_filename=None)
+        fe.run_started(m)
+        fe.run_stopped(stop)
+        fe.run_started(m)          # resent after the run has ended
+        fe.run_stopped(stop)       # ... and its stop resent as well
+    run_in_loop(body)
+    return {"violated": c.plot_logs.count("R1") != 1 or c.recent_runs.count("R1") != 1, "plot_logs": c.plot_logs, "recent_runs": c.recent_runs,
+            "scenario": "run_started(R1), run_stopped(R1), run_started(R1) resent, run_stopped(R1) resent"}
+
+
 if __name__ == "__main__":
     print(scenario_duplicate_run_started())
+    print(scenario_run_started_resent_after_the_run_stopped())
 
 
 def make_frontend():
@@ -142,14 +164,14 @@ def scenario_concurrent_saves():
         v0 = emap["E"].method.version
         m1 = Mdl.Method(lines=[Mdl.MethodLine(id="1", content="Mark: A")], version=v0, last_author="a")
         m2 = Mdl.Method(lines=[Mdl.MethodLine(id="1", content="Mark: B")], version=v0, last_author="b")
-        u = Mdl.Contributor(id=None, name="x")
-        res = await asyncio.gather(ff.save_method("E", m1, u), ff.save_method("E", m2, u), return_exceptions=True)
+        u1, u2 = Mdl.Contributor(id="user-1", name="x"), Mdl.Contributor(id="user-2", name="y")   # two DIFFERENT users
+        res = await asyncio.gather(ff.save_method("E", m1, u1), ff.save_method("E", m2, u2), return_exceptions=True)
         return v0, res, emap["E"].method.version, emap["E"].method.lines[0].content
     v0, res, v_end, content = asyncio.run(body())
     accepted = [r for r in res if isinstance(r, int)]
     return {"violated": len(accepted) > 1, "based_on_version": v0, "results": [str(r) for r in res], "accepted": len(accepted),
             "final_version": v_end, "surviving_content": content,
-            "scenario": "two save_method calls based on the same version, interleaved at the dispatcher await"}
+            "scenario": "two save_method calls by two different users based on the same version, interleaved at the dispatcher await"}
 
 
 def scenario_user_on_two_units():
